@@ -1,5 +1,6 @@
 import SluProofs.Lemmas.RoundingEquil
 import SluProofs.Lemmas.RoundingAlg
+import SluProofs.Lemmas.RoundingGemv
 import Mathlib.Algebra.Order.Field.Rat
 import Mathlib.Tactic.NormNum
 /-
@@ -32,6 +33,7 @@ Constants PROVED (all not larger than the constants the checks use):
                 (`expert_original_check_constant`)     γ_{4n+10}|L̂||Û||x_eq| + γ_{n+3}|b1|  (proved: γ_{3n+5}, γ_1|b1|)
   kernels (C14) (`trsv_lower_check_constant`, `trsv_upper_check_constant`)  γ_{2n+8}(|T||x̂| + |b|)  (proved: γ_{n+1}|T||x̂|)
                 (`gstrs_check_constant`)               γ_{4n+4}|P||Q||x̂| + γ_{n+1}|b|      (proved: γ_{2n+2})
+                (`gemv_notrans_check_constant`, `gemv_trans_check_constant`)  γ_{k+4}(|alpha|Σ|a||x| + |beta||y|)  (proved: γ_{k+2})
   executable    (`rounded_lu_backward_error`, `rounded_solve_backward_error`)  γ_{n+1}, γ_{3n}: rounded
                 Doolittle + substitutions in ANY `FlModel`, all sizes, no hypothesis but nonzero pivots
 Also: sparse kernels that skip structural zeros are covered (`Dot.of_filter`); operations done
@@ -196,6 +198,31 @@ theorem gstrs_check_constant {u : F} (hu0 : 0 ≤ u) {n : Nat} {P Q : Nat → Na
   have h2 : 0 ≤ gamma u (n + 1) * |b i| :=
     mul_nonneg (gamma_nonneg hu0 (mul_lt_one_of_le hu0 (by omega) hu)) (abs_nonneg _)
   linarith
+
+/-- **`sp_[sd]gemv`, NOTRANS** (`temp_j = fl(alpha x_j)`; `beta y_i` and the `temp_j a_ij` summed in any
+order): `|ŷ_i - (alpha Σ a x + beta y_i)| ≤ γ_{k+4} (|alpha| Σ|a||x| + |beta||y_i|)`, `k` = stored
+entries of the row. -/
+theorem gemv_notrans_check_constant {u : F} (hu0 : 0 ≤ u) {k : Nat} (a x temp : Nat → F)
+    (alpha beta yi y' : F) (htemp : ∀ j < k, Rnd u (alpha * x j) (temp j))
+    (hy' : SumOf u ((beta, yi) :: (List.range k).map fun j => (temp j, a j)) y')
+    (hu : ((k + 4 : Nat) : F) * u < 1) :
+    |y' - (alpha * ∑ j ∈ range k, a j * x j + beta * yi)| ≤
+      gamma u (k + 4) * (|alpha| * ∑ j ∈ range k, |a j| * |x j| + |beta| * |yi|) := by
+  refine (gemv_notrans_bound hu0 a x temp alpha beta yi y' htemp hy'
+    (mul_lt_one_of_le hu0 (by omega) hu)).trans ?_
+  exact mul_le_mul_of_nonneg_right (gamma_mono hu0 (by omega) hu)
+    (add_nonneg (mul_nonneg (abs_nonneg _) (Finset.sum_nonneg fun j _ => by positivity)) (by positivity))
+
+/-- **`sp_[sd]gemv`, TRANS** (`temp = Σ a x` in any order, then `fl(beta y) + fl(alpha temp)`). -/
+theorem gemv_trans_check_constant {u : F} (hu0 : 0 ≤ u) {k : Nat} (a x : Nat → F)
+    (alpha beta yi temp y' : F) (htemp : SumOf u ((List.range k).map fun j => (a j, x j)) temp)
+    (hy' : SumOf u [(beta, yi), (alpha, temp)] y') (hu : ((k + 4 : Nat) : F) * u < 1) :
+    |y' - (alpha * ∑ j ∈ range k, a j * x j + beta * yi)| ≤
+      gamma u (k + 4) * (|alpha| * ∑ j ∈ range k, |a j| * |x j| + |beta| * |yi|) := by
+  refine (gemv_trans_bound hu0 a x alpha beta yi temp y' htemp hy'
+    (mul_lt_one_of_le hu0 (by omega) hu)).trans ?_
+  exact mul_le_mul_of_nonneg_right (gamma_mono hu0 (by omega) hu)
+    (add_nonneg (mul_nonneg (abs_nonneg _) (Finset.sum_nonneg fun j _ => by positivity)) (by positivity))
 
 /-! ### the expert driver's scalings (C05) -/
 
